@@ -314,7 +314,7 @@ class Program:
         if r < 0.5:
             opts["patterns"] = ["full", "uniform", "mixed"]
         self.world = gen_world(rng, opts)
-        self.gen = Gen(rng, self.world)
+        self.gen = Gen(rng, self.world, {"dist_dups": True})
         r = rng.random()
         self.n_prefix = rng.randint(0, 3) if r < 0.6 else rng.randint(2, 8) if r < 0.92 else rng.randint(6, 12)
         # quick tier: an interrupted program costs ten re-executions, a rejected one costs one - two thirds of the
@@ -335,6 +335,10 @@ class Program:
         if r < 0.40:
             return g.gen_transfer(sess, intent if intent in ("ok", "reject.underflow", "reject.overflow", "reject.oversize") else "ok")
         if r < 0.55:
+            if intent == "ok" and rng.random() < 0.12:
+                d = g.gen_distribute_dupgap(sess)
+                if d is not None:
+                    return d
             d = g.gen_distribute(sess, intent)
             if d is not None:
                 return d
